@@ -33,8 +33,18 @@ HasCyc(p) == \E j \in 1..Len(p.fns) : p.fns[j].kind \in {"fix", "fixjoin", "fb"}
 HasFix(p) == \E j \in 1..Len(p.fns) : p.fns[j].kind \in {"fix", "fixjoin"}
 HasFb(p) == \E j \in 1..Len(p.fns) : p.fns[j].kind = "fb"
 SemOf(p, s) == IF HasFix(p) THEN SemTableFix(p, s) ELSE IF HasFb(p) THEN SemTableFb(p, s) ELSE SemTable(p, s)
-\* property that "result differs" is charged to
-ValueProp == IF HasFix(P) THEN "C12" ELSE IF HasFb(P) THEN "C13" ELSE "C01"
+\* properties that a wrong result is charged to: C01 always; the property whose mechanism the family of
+\* the history exercises as well (a stale result in a durability history is a C02 violation, ...)
+FamProp(m) ==
+    CASE m \in {"dur", "mc-dur"} -> {"C02"}
+      [] m \in {"untracked", "mc-untracked"} -> {"C04"}
+      [] m \in {"lru", "mc-lru"} -> {"C05"}
+      [] m \in {"churn", "reclaim"} -> {"C07"}
+      [] m = "spec" -> {"C10"}
+      [] m = "persist" -> {"C26"}
+      [] OTHER -> {}
+ValueProps == IF HasFix(P) THEN {"C12"} ELSE IF HasFb(P) THEN {"C13"} ELSE {"C01"} \cup FamProp(st.mode)
+CheckAll(ids, ok, detail) == IF ok THEN TRUE ELSE \A id \in ids : Viol(id, detail)
 
 SVals(inp, cell) ==
     [inp |-> [i \in 1..Len(inp) |-> [f \in 1..2 |-> inp[i][f].v]], cell |-> cell]
@@ -47,7 +57,7 @@ Fresh(p, s0) ==
         cur |-> [op |-> "none"], expect |-> "", stack |-> <<>>, fn |-> <<>>,
         structs |-> <<>>, order |-> <<>>, cap |-> p.lru_cap, handed |-> {},
         dropped |-> {}, evNow |-> {}, pend |-> {}, noC03 |-> FALSE, panics |-> 0,
-        last |-> 0, cyc |-> HasCyc(p), inject |-> 0, injected |-> FALSE, s0 |-> s0,
+        mode |-> "", last |-> 0, cyc |-> HasCyc(p), inject |-> 0, injected |-> FALSE, s0 |-> s0,
         idv |-> <<>>, itn |-> <<>>, iq |-> <<<<1>>, <<1, 1>>, <<1, 1, 1>>>>, canon |-> <<>>, canonRev |-> 0, prevId |-> <<>>]
 
 K0 == [has |-> FALSE, v |-> -1, hs |-> <<>>, is |-> <<>>, s |-> 0, deps |-> <<>>, untr |-> FALSE,
@@ -141,7 +151,7 @@ Evictable(k) == Fn(k).has /\ ~Fn(k).untr
 ev == Rec[l]
 
 OnReset ==
-    st' = [Fresh(ev.prog, ev.s0) EXCEPT !.inject = ev.inject]
+    st' = [Fresh(ev.prog, ev.s0) EXCEPT !.inject = ev.inject, !.mode = ev.mode]
 
 IsMutOp(o) == o \in {"set", "synth", "cell", "lru", "evict"}
 
@@ -214,7 +224,7 @@ ReadOutcome(semr, semv, isAcc) ==
         /\ Check("C14", semr.err # "cycle", <<"cyclic request returned a value", ev.v>>)
         /\ Check("C15", semr.err # "diverge", <<"diverging cycle returned a value", ev.v>>)
         /\ (semr.err = "" /\ ~isAcc) =>
-              Check(ValueProp, ev.v = semv, <<"result differs from from-scratch evaluation", ev.v, semv, st.cur>>)
+              CheckAll(ValueProps, ev.v = semv, <<"result differs from from-scratch evaluation", ev.v, semv, st.cur>>)
         /\ (semr.err \in {"specforeign", "spectwice"}) =>
               Check("C10", FALSE, <<"specify misuse did not panic", semr.err>>)
     ELSE IF ev.ok = 0 THEN
@@ -356,7 +366,7 @@ OnRd ==
               Check("C04", ev.v = st.cell[d.a], <<"cell read differs", d, ev.v>>)
          [] d.t = "fn" ->
               /\ (st.sem[d.a].err = "" /\ ~st.cyc) =>
-                    Check("C01", ev.v = st.sem[d.a].v, <<"nested result differs from from-scratch evaluation", d, ev.v, st.sem[d.a].v>>)
+                    CheckAll(ValueProps, ev.v = st.sem[d.a].v, <<"nested result differs from from-scratch evaluation", d, ev.v, st.sem[d.a].v>>)
               /\ Fn(d.k).untr =>
                     Check("C04", Fn(d.k).execRev = st.rev, <<"untracked function not re-executed in this revision", d.k>>)
          [] d.t = "fld" ->
